@@ -730,8 +730,9 @@ def _check_algebra(check, an: Analysis, classes):
     check.instance('B', '~AsyncComparison', ok, where_fn(an.method(COMPARISON, '__invert__')),
                    'same operands, complemented operator')
     init = an.method(COMPARISON, '__init__')
-    lambdas = [n for n in ast.walk(init.node) if isinstance(n, ast.Lambda)]
-    forms = sorted(ast.unparse(lam.body) for lam in lambdas)
+    tests = [rules.thunk_body(an, init, n.value) for n in ast.walk(init.node)
+             if isinstance(n, ast.Assign) and ast.unparse(n.targets[0]) == 'self._test']
+    forms = sorted('?' if body is None else ast.unparse(body) for body in tests)
     check.instance('B', 'AsyncComparison._test', forms == [
         'condition(left.value, right)', 'condition(left.value, right.value)'],
         where_fn(init), 'the test applies the operator to the current values: %s' % forms)
